@@ -224,9 +224,13 @@ _dispatch_time_nanoseconds_since_epoch(dispatch_time_t when)
 	if (when == DISPATCH_TIME_FOREVER) {
 		return DISPATCH_TIME_FOREVER;
 	}
-	if ((int64_t)when < 0) {
+	dispatch_clock_t clock;
+	uint64_t value;
+	_dispatch_time_to_clock_and_value(when, &clock, &value);
+	if (clock == DISPATCH_CLOCK_WALL) {
 		// time in nanoseconds since the POSIX epoch already
-		return (uint64_t)-(int64_t)when;
+		// (or DISPATCH_TIME_FOREVER when out of range)
+		return value;
 	}
 
 	// Up time or monotonic time.
